@@ -12,6 +12,8 @@ Deciding step: complete enumeration of declared finite spaces on the real
   same, with the distances placed around every waypoint;
 * "same object" sequences: all queries on one ``GroundTrack`` forwards, then backwards,
   compared with fresh objects (history independence);
+* "twin tracks": the same waypoints with both ``allow_overstep`` settings alive in one
+  process, either setting created first; every object must obey its own setting;
 * every ordered pair of harness airports (lattice + real ones + an unknown code) for
   ``Mission.gc_distance``.
 
@@ -251,6 +253,13 @@ def sublattices(tier, seed):
                  'queries': 'all location distances of the track type + a fixed 12/20-step table'},
         'cases': [{'k': 'seq', 'wp': w, 'ov': ov} for w in seq_tracks for ov in (0, 1)],
     })  # fmt: skip
+    subs.append({
+        'name': 'twin tracks: same waypoints, both overstep settings alive in one process, either created first',
+        'axes': {'track': 'all quick-lattice pairs + all multi-waypoint tracks', 'created_first': [0, 1],
+                 'objects': ['first setting', 'other setting', 'first setting again'],
+                 'queries': 'every location distance and the fixed step table of the track type, on every object'},
+        'cases': [{'k': 'twin', 'wp': w, 'first': f} for w in seq_tracks for f in (0, 1)],
+    })  # fmt: skip
     codes = _mission_codes(tier)
     subs.append({
         'name': 'mission origin x destination',
@@ -425,10 +434,10 @@ def _classify(x, L):
     return 'inside' if x <= L else 'beyond'
 
 
-def _run_loc(case):
+def _run_loc(case, gt=None):
     out = []
     try:
-        gt = _build(case)
+        gt = _build(case) if gt is None else gt
     except Exception as ex:  # noqa: BLE001
         return {'outcome': 'error:construct', 'nontrivial': True,
                 'violations': [V('internal-error', f'constructing the track: {type(ex).__name__}: {str(ex)[:200]}')]}  # fmt: skip
@@ -465,10 +474,10 @@ def _run_loc(case):
     return {'outcome': f'loc:overstep-track-returned-{cls}', 'nontrivial': False, 'violations': out, 'fp': fp}
 
 
-def _run_step(case):
+def _run_step(case, gt=None):
     out = []
     try:
-        gt = _build(case)
+        gt = _build(case) if gt is None else gt
     except Exception as ex:  # noqa: BLE001
         return {'outcome': 'error:construct', 'nontrivial': True,
                 'violations': [V('internal-error', f'constructing the track: {type(ex).__name__}: {str(ex)[:200]}')]}  # fmt: skip
@@ -671,7 +680,34 @@ def _run_mission(case):
     return {'outcome': oc, 'nontrivial': True, 'violations': out, 'fp': fingerprint(['mission', po, pd_])}
 
 
-_RUN = {'loc': _run_loc, 'step': _run_step, 'seq': _run_seq, 'mission': _run_mission}
+def _run_twin(case):
+    """Several tracks over the same waypoints that differ only in `allow_overstep` are alive at the
+    same time; each must behave according to its *own* setting whichever was created first."""
+    out = []
+    first = int(case['first'])
+    flags = [first, 1 - first, first]
+    try:
+        objs = [_build({'wp': case['wp'], 'ov': f}) for f in flags]
+    except Exception as ex:  # noqa: BLE001
+        return {'outcome': 'error:construct', 'nontrivial': True,
+                'violations': [V('internal-error', f'constructing the tracks: {type(ex).__name__}: {str(ex)[:200]}')]}  # fmt: skip
+    names = ['1st object', '2nd object (other setting)', '3rd object (first setting again)']
+    npts = 0
+    for pos, (f, gt) in enumerate(zip(flags, objs)):
+        pre = f'[{names[pos]}; tracks with the same waypoints were created with allow_overstep={flags[:pos]} before] '
+        for q in _queries(len(case['wp'])):
+            if q[0] == 'loc':
+                r = _run_loc({'k': 'loc', 'wp': case['wp'], 'ov': f, 'd': q[1]}, gt)
+            else:
+                r = _run_step({'k': 'step', 'wp': case['wp'], 'ov': f, 'a': q[1], 'b': q[2]}, gt)
+            npts += bool(r.get('nontrivial'))
+            for v in r['violations']:
+                if len(out) < 6:
+                    out.append(dict(v, detail=(pre + v['detail'])[:1500]))
+    return {'outcome': 'twin:consistent' if not out else 'twin:inconsistent', 'nontrivial': npts > 0, 'violations': out}
+
+
+_RUN = {'loc': _run_loc, 'step': _run_step, 'seq': _run_seq, 'twin': _run_twin, 'mission': _run_mission}
 
 
 def run_case(case):
@@ -686,13 +722,61 @@ def observe(case):
     k = case['k']
     if k == 'mission':
         return repr(_gc(case['o'], case['d'])[:2])
-    if k == 'seq':
+    if k in ('seq', 'twin'):
         return None
     gt = _build(case)
     sym = _symbols([float(gt.waypoint_distance(i)) for i in range(len(gt))])
     if k == 'loc':
         return repr(_obs(gt, sym, ('loc', case['d'])))
     return repr(_obs(gt, sym, ('step', case['a'], case['b'])))
+
+
+def _warmup_cases(case, other_first):
+    """Cases that touch the same waypoints / airports as `case`, ordered so that the track with the
+    other (or the same) overstep setting is created and queried first."""
+    if case['k'] == 'mission':
+        o, d = case['o'], case['d']
+        pre = [(d, o), (o, o), (d, d)] if other_first else [(o, d)]
+        return [{'k': 'mission', 'o': a, 'd': b} for a, b in pre]
+    if 'wp' not in case or case['k'] == 'twin':
+        return []
+    ov = int(case.get('ov', 0))
+    flags = [1 - ov, ov] if other_first else [ov, 1 - ov]
+    n = len(case['wp'])
+    pre = []
+    for wp in (case['wp'], case['wp'][::-1]):
+        for f in flags:
+            for q in _queries(n):
+                if q[0] == 'loc':
+                    pre.append({'k': 'loc', 'wp': wp, 'ov': f, 'd': q[1]})
+                else:
+                    pre.append({'k': 'step', 'wp': wp, 'ov': f, 'a': q[1], 'b': q[2]})
+    return pre
+
+
+def _replay_variant(arg):
+    variant, case = arg
+    if variant != 'cold':
+        for c in _warmup_cases(case, other_first=(variant == 'after-other-setting')):
+            run_case(c)
+    vs = run_case(case).get('violations', [])
+    if variant != 'cold':
+        for v in vs:
+            v['detail'] = (f'[replayed {variant}: tracks over the same waypoints were created and queried first] ' + v['detail'])[:1500]
+    return vs
+
+
+def replay(case):
+    """Re-execute one recorded case in fresh forked processes: cold, and after tracks over the same
+    waypoints (other overstep setting first / same setting first) have been created and queried -- a
+    violation that depends on state shared between track objects only shows with that history."""
+    from vf import runner
+
+    res = runner.pool_map(_replay_variant, [(v, case) for v in ('cold', 'after-other-setting', 'after-same-setting')], 3, None, ())
+    for vs in res:
+        if vs:
+            return vs
+    return []
 
 
 if __name__ == '__main__':
